@@ -152,15 +152,9 @@ def install_guards(cx):
     def follower(l):
         return l[0] == "in" and is_f(l[1], STATE) and l[2] == frozenset(["Follower"])
     def member(l):
-        # !(conf state ids).all(|id| id != self.id)
-        if l[0] != "is" or l[2] is not False or l[1][0] != "call" or not l[1][1].endswith("::all"):
-            return False
-        clo = [x for x in l[1][2] if x[0] == "closure"]
-        if not clo:
-            return False
-        from ..idioms import closure_returns
-        r = closure_returns(cx.prog, clo[0][1]) or []
-        return len(r) == 1 and r[0][1][0] == "bin" and r[0][1][1] == "Ne" and any(is_f(x, "RaftCore.id") or x[0] == "field" and x[2] == "RaftCore.id" for x in walk(r[0][1]))
+        # !(conf state ids).all(|id| id != self.id)   or   ids.any(|id| id == self.id)
+        from ..idioms import self_member_lit
+        return self_member_lit(cx.prog, l) is not None
     def not_matching_or_requested(l):
         if l[0] == "notin" and is_f(l[1], "RaftCore.pending_request_snapshot") and 0 in l[2]:
             return True
@@ -275,7 +269,12 @@ def send_gate(cx):
         def wanted(l):
             return l[0] == "notin" and is_f(l[1], "Progress.pending_request_snapshot") and 0 in l[2]
         def unavailable(l):
-            return l[0] == "in" and l[2] == frozenset(["Err"]) and l[1][0] == "call" and (l[1][1].endswith("RaftLog::term") or l[1][1].endswith("RaftLog::entries"))
+            if l[0] != "in" or l[2] != frozenset(["Err"]) or l[1][0] != "call":
+                return False
+            e = l[1]
+            if not (e[1].endswith("RaftLog::term") or e[1].endswith("RaftLog::entries")):
+                e = cx.prog.inline_wrappers(e)   # the read may sit behind a private straight-line helper
+            return e[0] == "call" and (e[1].endswith("RaftLog::term") or e[1].endswith("RaftLog::entries"))
         require(cx, c, cx.site_key(c, "why"), "a snapshot is sent only if the follower asked for one or the term/entries it needs are unavailable", lambda l: wanted(l) or unavailable(l), kill=False)
     # LogTemporarilyUnavailable must not fall through to a snapshot
     msa = [c.fn for c in callers_of(cx, psn)][0]
